@@ -1044,3 +1044,259 @@ Section Exec.
     - change (exec ct (S f) k) with (body ct (exec ct f) k). eapply body_bj; eauto.
   Qed.
 End Exec.
+
+(* ------------------------------------------------------------------ *)
+(** * The public operations *)
+Section Ops.
+  Variable ct : ctable.
+  Hypothesis Hscalar : scalar_table ct.
+  Variable n0 : nat.
+  Hypothesis dflt_in : forall c k a, lookup_cls ct c = Some k -> vb n0 (class_default k a).
+  Notation rec := (exec ct XFUEL).
+  Let Hrec := exec_bj ct Hscalar n0 dflt_in XFUEL.
+  Local Opaque exec XFUEL.
+
+  Definition hb (n : nat) (h : hargs) : Prop :=
+    Forall (vb n) (h_pos h) /\ vb n (h_index h) /\ oattrsb n (h_kw h) /\ atsb (h_kwfn h) /\ ofn_scalar (h_fn h).
+
+  Lemma nth_vb n xs k : Forall (vb n) xs -> vb n (nth k xs VMissing).
+  Proof.
+    intro H. destruct (nth_in_or_default k xs VMissing) as [Hin| ->]; [|exact I].
+    rewrite Forall_forall in H. exact (H _ Hin).
+  Qed.
+  Lemma nth_vb' n xs k : Forall (vb n) xs -> vb n (nth k xs VNone).
+  Proof.
+    intro H. destruct (nth_in_or_default k xs VNone) as [Hin| ->]; [|exact I].
+    rewrite Forall_forall in H. exact (H _ Hin).
+  Qed.
+
+  Lemma bj_spec_for n l a : bj n (spec_for ct l a) (fun _ r => spb (snd r)).
+  Proof.
+    unfold spec_for. bbind; [apply bj_read_inst|]. intros p n1 H1 _.
+    bbind; [apply (bj_cls_of ct)|]. intros k n2 H2 Hk. cbv beta in Hk.
+    destruct (lookup_attr k a) eqn:E; [|apply bj_fail]. bret. intros. simpl. eapply lookup_spb; eauto.
+  Qed.
+
+  Lemma bj_mk_mutator n sp l inplace : n0 <= n -> bj n (mk_mutator ct sp l inplace) QV.
+  Proof.
+    intro Hn. unfold mk_mutator. bbind; [apply bj_read_inst|]. intros p n1 H1 _.
+    bbind; [apply (bj_cls_of ct)|]. intros k n2 H2 _.
+    eapply bj_bind with (Q := TQ). { bif; [apply bj_fail|bret; intros; exact I]. }
+    intros _ n3 H3 _. bbind; [apply (bj_getattr_default ct n0 dflt_in); blia|]. intros c n4 H4 Hc.
+    bif; [bret; intros; unfold QV in *; vbm|apply (protect_bj ct Hscalar); exact Hc].
+  Qed.
+  Lemma bj_current_value n l sp inplace used : n0 <= n -> bj n (current_value ct l sp inplace used) QV.
+  Proof.
+    intro Hn. unfold current_value. bbind; [apply (bj_getattr_default ct n0 dflt_in); blia|]. intros v n1 H1 Hv.
+    bif; [bret; intros; unfold QV in *; vbm|apply (protect_bj ct Hscalar); exact Hv].
+  Qed.
+  Lemma bj_with_attr n l sp new attrs inplace :
+    n0 <= n -> l < n -> spb sp -> vb n new -> oattrsb n attrs -> bj n (with_attr ct l sp new attrs inplace) QV.
+  Proof.
+    intros Hn Hl Hsp Hnew Ha. unfold with_attr.
+    bbind; [apply (bj_prepare_attr_value ct n0 rec Hrec); auto|]. intros v n1 H1 Hv.
+    apply (bj_mutate_attr ct Hscalar n0 rec Hrec); [blia|blia|exact Hv].
+  Qed.
+
+  Lemma oattrsb_mono n n' o : n <= n' -> oattrsb n o -> oattrsb n' o.
+  Proof. intros H. destruct o; simpl; auto. apply kwb_mono; auto. Qed.
+
+  Lemma Forall_remove_at' {T} (P : T -> Prop) k l : Forall P l -> Forall P (remove_at k l).
+  Proof.
+    intros. unfold remove_at. apply Forall_app. split; [now apply Forall_firstn''|now apply Forall_skipn''].
+  Qed.
+
+  Theorem run_helper_bj n l hp h : n0 <= n -> l < n -> hb n h -> bj n (run_helper ct l hp h) QV.
+  Proof.
+    intros Hn Hl (Hpos & Hidx & Hkw & Hkwfn & Hfn). unfold run_helper.
+    bif; [bret; intros; unfold QV; simpl; blia|].
+    assert (Hp0 : vb n (pos0 h)) by (apply nth_vb; exact Hpos).
+    assert (Hp1 : vb n (pos1 h)) by (apply nth_vb; exact Hpos).
+    assert (Hmc : forall n' fam sp c io, n <= n' -> spb sp -> vb n' c -> iob n' io ->
+              bj n' (c' <- mutate_collection ct rec fam sp l c io ;;
+                     mutate_attr ct rec l (a_name sp) c' (h_inplace h) false false false) QV).
+    { intros n' fam sp c io Hn' Hsp Hc Hio.
+      bbind; [apply (bj_mutate_collection ct n0 rec Hrec); [blia|exact Hsp|exact Hc|exact Hio]|].
+      intros c' n2 H2 Hc'. apply (bj_mutate_attr ct Hscalar n0 rec Hrec); [blia|blia|exact Hc']. }
+    destruct hp.
+    - (* HWith *) bbind; [apply bj_spec_for|]. intros r n1 H1 Hr.
+      apply bj_with_attr; [blia|blia|exact Hr|vbm|eapply oattrsb_mono; [|exact Hkw]; blia].
+    - (* HUpdate *)
+      assert (Hgen : bj n
+        (r <- spec_for ct l a ;; let sp := snd r in
+         old <- current_value ct l sp (h_inplace h) (is_sentinel (pos0 h)) ;;
+         v <- rec (KMutateValue (mkmv old (pos0 h) false PNone (h_kw h)
+                                      (Some (ctor_of_ty (a_ty sp))) (Some (a_ty sp)) None [] false)) ;;
+         with_attr ct l sp v None (h_inplace h)) QV).
+      { bbind; [apply bj_spec_for|]. intros r n1 H1 Hr. cbv zeta.
+        bbind; [apply bj_current_value; blia|]. intros old n2 H2 Hold.
+        bbind; [apply Hrec; [blia|]; simpl; unfold mvb; simpl|].
+        { split; [exact Hold|]. split; [vbm|]. split; [exact I|].
+          split; [eapply oattrsb_mono; [|exact Hkw]; blia|]. split; [exact I|constructor]. }
+        intros v n3 H3 Hv. apply bj_with_attr; [blia|blia|exact Hr|exact Hv|exact I]. }
+      destruct (pos0 h); try exact Hgen. bret. intros; unfold QV; simpl; blia.
+    - (* HTransform *)
+      bbind; [apply bj_spec_for|]. intros r n1 H1 Hr. cbv zeta.
+      bbind; [apply bj_current_value; blia|]. intros old n2 H2 Hold.
+      bbind; [apply Hrec; [blia|]; simpl; unfold mvb; simpl|].
+      { split; [exact Hold|]. split; [exact I|]. split; [exact I|]. split; [exact I|].
+        split; [destruct (h_fn h); simpl; auto|exact Hkwfn]. }
+      intros v n3 H3 Hv. apply bj_with_attr; [blia|blia|exact Hr|exact Hv|exact I].
+    - (* HReset *)
+      eapply bj_bind with (Q := fun n' l' => l' < n').
+      { bif; [bret; intros; blia|]. bbind; [apply (deepcopy_bj ct Hscalar)|]. intros v n1 H1 Hv.
+        apply bj_loc_of. exact Hv. }
+      intros l' n1 H1 Hl'.
+      eapply bj_bind with (Q := TQ); [|intros; bret; intros; unfold QV; simpl; blia].
+      apply bj_thawed; [|intros; exact I]. intros n2 H2. apply (bj_rec_T n0 rec Hrec); [blia|simpl; blia].
+    - (* HWithItem *)
+      bbind; [apply bj_spec_for|]. intros r n1 H1 Hr. cbv zeta.
+      bbind; [apply bj_mk_mutator; blia|]. intros c n2 H2 Hc.
+      assert (Hname : a = a_name (snd r) \/ True) by auto.
+      eapply bj_bind with (Q := QV).
+      { destruct (family_of (a_ty (snd r))) as [[| |]|]; try apply bj_fail;
+          (apply (bj_mutate_collection ct n0 rec Hrec); [blia|exact Hr|exact Hc|]; unfold iob; simpl;
+           (split; [|split; [|split; [eapply oattrsb_mono; [|exact Hkw]; blia|split; [exact I|constructor]]]])); try exact I; try vbm.
+        - destruct (h_pos h) as [|k0 t]; [exact I|]. inversion Hpos; subst. vbm.
+        - destruct (h_pos h) as [|k0 [|v0 t]]; try exact I. inversion Hpos as [|? ? _ Hq]; inversion Hq; subst. vbm. }
+      intros c' n3 H3 Hc'. apply (bj_mutate_attr ct Hscalar n0 rec Hrec); [blia|blia|exact Hc'].
+    - (* HUpdateItem *)
+      bbind; [apply bj_spec_for|]. intros r n1 H1 Hr. cbv zeta.
+      bbind; [apply bj_mk_mutator; blia|]. intros c n2 H2 Hc.
+      eapply bj_bind with (Q := QV).
+      { destruct (family_of (a_ty (snd r))) as [[| |]|]; try apply bj_fail;
+          (apply (bj_mutate_collection ct n0 rec Hrec); [blia|exact Hr|exact Hc|]; unfold iob; simpl;
+           (split; [vbm|split; [vbm|split; [eapply oattrsb_mono; [|exact Hkw]; blia|split; [exact I|constructor]]]])). }
+      intros c' n3 H3 Hc'. apply (bj_mutate_attr ct Hscalar n0 rec Hrec); [blia|blia|exact Hc'].
+    - (* HTransformItem *)
+      bbind; [apply bj_spec_for|]. intros r n1 H1 Hr. cbv zeta.
+      bbind; [apply bj_mk_mutator; blia|]. intros c n2 H2 Hc.
+      eapply bj_bind with (Q := QV).
+      { destruct (family_of (a_ty (snd r))) as [fam|]; try apply bj_fail.
+        apply (bj_mutate_collection ct n0 rec Hrec); [blia|exact Hr|exact Hc|]. unfold iob; simpl.
+        split; [vbm|split; [exact I|split; [exact I|split; [|exact Hkwfn]]]]. destruct (h_fn h); [exact Hfn|exact I]. }
+      intros c' n3 H3 Hc'. apply (bj_mutate_attr ct Hscalar n0 rec Hrec); [blia|blia|exact Hc'].
+    - (* HWithoutItem *)
+      bbind; [apply bj_spec_for|]. intros r n1 H1 Hr. cbv zeta.
+      bbind; [apply bj_mk_mutator; blia|]. intros c00 n2 H2 Hc00.
+      eapply bj_bind with (Q := QV).
+      { bif; [apply (bj_create_collection n0 rec Hrec); blia|bret; intros; unfold QV in *; vbm]. }
+      intros c n3 H3 Hc.
+      eapply bj_bind with (Q := TQ).
+      { destruct (family_of (a_ty (snd r))) as [[| |]|]; try apply bj_fail.
+        - bbind; [apply (bj_seq_extractor ct); vbm|]. intros ex n4 H4 _.
+          destruct (fst ex); try apply bj_fail; try (bret; intros; exact I); cbv zeta.
+          + bbind; [apply bj_read_list|]. intros p n5 H5 [_ Hp].
+            destruct (norm_index _ _); [|apply bj_fail]. apply bj_write. simpl. now apply Forall_remove_at'.
+          + bbind; [apply bj_read_list|]. intros p n5 H5 [_ Hp].
+            destruct (norm_index _ _); [|apply bj_fail]. apply bj_write. simpl. now apply Forall_remove_at'.
+        - bbind; [apply (bj_map_extractor ct); vbm|]. intros ex n4 H4 _.
+          bbind; [apply bj_read_dict|]. intros p n5 H5 [_ Hp]. bbind; [apply bj_get_heap|]. intros h' n6 H6 _.
+          apply bj_write. simpl. eapply pb_mono_all; [|]. 2:{ rewrite Forall_forall in *. intros q Hq. apply filter_In in Hq. destruct Hq as [Hq _]. exact (Hp _ Hq). } blia.
+        - bbind; [apply (bj_set_extractor ct); vbm|]. intros ex n4 H4 _.
+          bbind; [apply bj_read_set|]. intros p n5 H5 [_ Hp].
+          bbind; [apply (bj_set_discard ct); exact Hp|]. intros xs n6 H6 Hxs. apply bj_write. exact Hxs. }
+      intros _ n4 H4 _. apply (bj_mutate_attr ct Hscalar n0 rec Hrec); [blia|blia|unfold QV in Hc; vbm].
+    - (* HUpdateTop *)
+      apply Hrec; [exact Hn|]. simpl. unfold mvb; simpl. split; [exact Hl|]. split; [exact Hp0|].
+      split; [exact I|]. split; [exact Hkw|]. split; [exact I|constructor].
+    - (* HTransformTop *)
+      apply Hrec; [exact Hn|]. simpl. unfold mvb; simpl. split; [exact Hl|]. split; [exact I|].
+      split; [exact I|]. split; [exact I|]. split; [destruct (h_fn h); simpl; auto|exact Hkwfn].
+    - (* HResetTop *)
+      eapply bj_bind with (Q := fun n' l' => l' < n').
+      { bif; [bret; intros; blia|]. bbind; [apply (deepcopy_bj ct Hscalar)|]. intros v n1 H1 Hv.
+        apply bj_loc_of. exact Hv. }
+      intros l' n1 H1 Hl'. bbind; [apply bj_read_inst|]. intros p n2 H2 _.
+      bbind; [apply (bj_cls_of ct)|]. intros k n3 H3 _.
+      eapply bj_bind with (Q := TQ); [|intros; bret; intros; unfold QV; simpl; blia].
+      apply bj_thawed; [|intros; exact I]. intros n4 H4. apply bj_iterM. intros sp n5 _ H5.
+      apply bj_catch; [|intros; bret; intros; exact I].
+      bbind; [apply (bj_rec_T n0 rec Hrec); [blia|simpl; blia]|]. intros; bret; intros; exact I.
+  Qed.
+
+  Definition opb (n : nat) (o : op) : Prop :=
+    match o with
+    | OpConstruct _ pos kw => kwb n kw /\ match pos with Some v => vb n v | None => True end
+    | OpSetAttr _ _ v => vb n v
+    | OpDelAttr _ _ => True
+    | OpHelper _ _ h => hb n h
+    | OpDeepCopy _ => True
+    | OpAlloc ob0 => ob n ob0
+    end.
+
+  Theorem step_bj n roots o : n0 <= n -> Forall (vb n) roots -> opb n o -> bj n (step ct roots o) QV.
+  Proof.
+    intros Hn Hr Ho. destruct o; simpl in Ho |- *.
+    - destruct Ho. apply Hrec; [exact Hn|]. simpl. auto.
+    - bbind; [apply bj_loc_of; apply nth_vb'; exact Hr|]. intros l n1 H1 Hl.
+      eapply bj_bind with (Q := TQ); [|intros; bret; intros; exact I].
+      apply (bj_rec_T n0 rec Hrec); [blia|]. simpl. split; [exact Hl|vbm].
+    - bbind; [apply bj_loc_of; apply nth_vb'; exact Hr|]. intros l n1 H1 Hl.
+      eapply bj_bind with (Q := TQ); [|intros; bret; intros; exact I].
+      apply (bj_rec_T n0 rec Hrec); [blia|]. simpl. exact Hl.
+    - bbind; [apply bj_loc_of; apply nth_vb'; exact Hr|]. intros l n1 H1 Hl.
+      apply run_helper_bj; [blia|exact Hl|].
+      destruct Ho as (A & B & C & D & E). split; [vbm|]. split; [vbm|]. split; [eapply oattrsb_mono; [|exact C]; blia|auto].
+    - apply (deepcopy_bj ct Hscalar).
+    - bbind; [apply bj_alloc; exact Ho|]. intros l n1 H1 Hl. bret. intros; unfold QV; simpl; blia.
+  Qed.
+End Ops.
+
+(* ------------------------------------------------------------------ *)
+(** * Histories: no heap of a history has a dangling reference *)
+From SC Require Import Inst.SepMore Inst.SepMore2 Inst.SepMore3.
+
+(* every argument of the operation is a scalar (or an object of scalars the caller builds) *)
+Definition op_scalar (o : op) : Prop :=
+  match o with
+  | OpConstruct _ pos kw =>
+      Forall (fun p => val_nonref (snd p)) kw /\ match pos with Some v => val_nonref v | None => True end
+  | OpSetAttr _ _ v => val_nonref v
+  | OpDelAttr _ _ => True
+  | OpHelper _ _ h =>
+      Forall val_nonref (h_pos h) /\ val_nonref (h_index h) /\
+      match h_kw h with Some kw => Forall (fun p => val_nonref (snd p)) kw | None => True end /\
+      Forall (fun p => fn_scalar (snd p)) (h_kwfn h) /\ ofn_scalar (h_fn h)
+  | OpDeepCopy _ => True
+  | OpAlloc ob0 => refs_of ob0 = []
+  end.
+
+Section History.
+  Variable ct : ctable.
+  Hypothesis Hscalar : scalar_table ct.
+  Variable n0 : nat.
+  Hypothesis dflt_in : forall c k a, lookup_cls ct c = Some k -> vb n0 (class_default k a).
+
+  Lemma op_scalar_opb n o : op_scalar o -> opb n o.
+  Proof.
+    destruct o; simpl; auto.
+    - intros [H1 H2]. split.
+      + eapply Forall_impl; [|exact H1]. intros p Hp. unfold fb. now apply nonref_vb.
+      + destruct pos; auto. now apply nonref_vb.
+    - apply nonref_vb.
+    - intros (A & B & C & D & E). split; [now apply nonref_Forall_vb|]. split; [now apply nonref_vb|].
+      split; [|split; auto]. destruct (h_kw h); simpl; auto.
+      eapply Forall_impl; [|exact C]. intros p Hp. unfold fb. now apply nonref_vb.
+    - intro H. apply ob_refs. rewrite H. intros y [].
+  Qed.
+
+  Theorem run_wf_holds ops : forall s roots,
+    n0 <= length (heap s) -> wf_heap (heap s) -> Forall (vb (length (heap s))) roots ->
+    Forall (fun p => op_scalar (fst p)) ops ->
+    run_wf ct s roots ops.
+  Proof.
+    induction ops as [|[o fa] t IH]; intros s roots Hn Hw Hr Hops; simpl; [exact I|].
+    split; [exact Hw|]. inversion Hops as [|? ? Ho Ht]; subst. simpl in Ho.
+    set (s0 := mkst (heap s) 0 fa).
+    assert (W0 : wfn s0) by (apply wfn_wf; exact Hw).
+    destruct (step_bj ct Hscalar n0 dflt_in (length (heap s)) roots o Hn Hr (op_scalar_opb _ o Ho) s0 W0 (le_n _))
+      as (W1 & L1 & Q1).
+    destruct (step ct roots o s0) as [r s'] eqn:E. simpl in W1, L1, Q1.
+    apply IH; auto.
+    - lia.
+    - apply wfn_wf. exact W1.
+    - apply Forall_app. split; [eapply Forall_vb_mono; [|exact Hr]; exact L1|].
+      constructor; [|constructor]. destruct r; [exact Q1|exact I].
+  Qed.
+End History.
